@@ -171,7 +171,10 @@ def variants(ring, rng, all_of_them):
 
 def check(run):
     run.prove(MODULE, THEOREMS)
-    run.source_tie(['SrcPip'], 'GeoVerif.Props.C01Src', ['GV.C01Src.' + t for t in ('loop_eq', 'pointInPolygon_eq', 'src_pointInRing_eq_spec', 'src_boundary_false', 'src_inclB')])
+    run.source_tie(['SrcPip', 'SrcMember'], 'GeoVerif.Props.C01Src',
+                   ['GV.C01Src.' + t for t in ('loop_eq', 'pointInPolygon_eq', 'pointInPolygonDefault_eq', 'boxContainsCoordinate_eq',
+                                               'boxContainsCoordinate_model', 'polyContainsCoordinate_model',
+                                               'src_pointInRing_eq_spec', 'src_boundary_false', 'src_inclB')])
     run.corpus(impl, spec)
     rng = run.rng
     grid = run.scale(4, 5)
